@@ -26,6 +26,7 @@ def leafProvides (leaf kind choice : String) : Option Backend :=
   | "toy-nocipher" => if kind == "cipher" then none else some .toy
   | "toy-nohash" => if kind == "hash" then none else some .toy
   | "none" => none
+  | "mark1" | "mark2" => some .toy
   | "default" | "ring" =>
     match Generated.resolverRows.find? fun r => r.resolver == leaf && r.kind == kind && r.choice == choice with
     | some row => if row.available then some (if leaf == "ring" then .ring else .default) else none
@@ -39,5 +40,17 @@ def provides : RExpr → String → String → Option Backend
     match provides a k c with
     | some x => some x
     | none => provides b k c
+
+/-- Which random source a resolver expression yields: the mark of the first leaf that provides an
+    RNG ("" for the unmarked OS sources). -/
+def leafMark (leaf : String) : String :=
+  if leaf == "mark1" then "01" else if leaf == "mark2" then "02" else ""
+
+def rngMark : RExpr → Option String
+  | .leaf l => (leafProvides l "rng" "-").map fun _ => leafMark l
+  | .fb a b =>
+    match rngMark a with
+    | some m => some m
+    | none => rngMark b
 
 end SnowVerif.Model
